@@ -48,6 +48,9 @@ def worlds(tier: str, stats: Dict[str, Any]) -> Iterator[Any]:
         yield dict(mode="file", T=T, ranks=[[list(i) for i in ms]], ties=False)
         mir = [[T - i[1], T - i[0], i[2], i[3], i[4]] for i in ms][::-1]
         yield dict(mode="file", T=T, ranks=[[list(i) for i in ms], mir], ties=False)
+        if len(ms) == 2:
+            stats["transitions"] += 1
+            yield dict(mode="file", T=T, ranks=[[list(i) for i in ms]], ties=False, no_corr=True)
     for seq in ivworlds.history_sequences():
         stats["transitions"] += len(seq)
         yield dict(mode="history", seq=seq)
@@ -98,7 +101,7 @@ def check(world) -> Dict[str, Any]:
         from mc import htaenv
 
         per_rank = {r: its for r, its in enumerate(world["ranks"])}
-        tas = [htaenv.load_world({r: ivworlds.events_for(its) for r, its in per_rank.items()})[0]]
+        tas = [htaenv.load_world({r: ivworlds.events_for(its, no_corr=bool(world.get("no_corr"))) for r, its in per_rank.items()})[0]]
     exp = {r: expected(its) for r, its in per_rank.items()}
 
     def run():
